@@ -333,6 +333,7 @@ impl PortCfg {
     pub(crate) fn identity(&self) -> PortIdentity {
         PortIdentity { clock_identity: OWN_CLOCK, port_number: self.port_number }
     }
+    pub(crate) fn config_pub(&self) -> PortConfig<()> { self.config() }
     fn config(&self) -> PortConfig<()> {
         let interval = Interval::from_log_2(self.log_interval);
         PortConfig {
@@ -603,11 +604,9 @@ pub(crate) fn drain_copy<const N: usize>(mut it: PortActionIterator<'_>, frame: 
                 match &a {
                     PortAction::SendEvent { data, .. } | PortAction::SendGeneral { data, .. } => {
                         len = data.len();
-                        let mut i = 0;
-                        while i < N {
-                            if i < data.len() { frame[i] = data[i]; }
-                            i += 1;
-                        }
+                        // frame lengths are concrete (wire_size of a body without / with a concrete suffix)
+                        let n = if len < N { len } else { N };
+                        frame[..n].copy_from_slice(&data[..n]);
                     }
                     _ => {}
                 }
@@ -683,4 +682,78 @@ pub(crate) fn snapshot<L>(p: &Port<'_, L, AcceptTwo, StubRng, RecClock, RecFilte
         path_enable: s.path_trace_ds.enable,
         fm_len: crate::bmc::bmca::verif_bmca::fm_len(&p.bmca),
     }
+}
+
+
+/// Drop-in replacement for `core::mem::swap` used via `#[kani::stub]` in harnesses that reach
+/// `Port::set_forced_port_state`: the library implementation swaps in word-sized chunks inside a loop
+/// (28 iterations for `PortState`), which forces a large global unwind bound; this version does the
+/// same three moves with `memcpy`-style intrinsics. Semantically identical (trusted, listed in evidence).
+pub(crate) fn swap_stub<T>(a: &mut T, b: &mut T) {
+    unsafe {
+        let t = core::ptr::read(a);
+        core::ptr::copy_nonoverlapping(b as *const T, a as *mut T, 1);
+        core::ptr::write(b, t);
+    }
+}
+
+// ------------------------------------------------------------------------------------------
+// InBmca ports (used by the instance-level BMCA harnesses in harness/instance)
+// ------------------------------------------------------------------------------------------
+
+pub(crate) fn mk_inbmca<'a>(state: &'a DepthCell, cfg: PortCfg, clock: RecClock, fcfg: RecFilterCfg, port_state: PortState) -> BPort<'a> {
+    let pid = cfg.identity();
+    Port {
+        config: cfg.config(),
+        filter_config: fcfg,
+        clock,
+        port_identity: pid,
+        port_state,
+        instance_state: state,
+        bmca: Bmca::new(cfg.accept, announce_interval_ti(cfg.log_interval), pid),
+        packet_buffer: [0; MAX_DATA_LEN],
+        lifecycle: InBmca { pending_action: actions![], local_best: None },
+        rng: StubRng(cfg.rng),
+        multiport_disable: None,
+        announce_seq_ids: SequenceIdGenerator::new(),
+        sync_seq_ids: SequenceIdGenerator::new(),
+        delay_seq_ids: SequenceIdGenerator::new(),
+        pdelay_seq_ids: SequenceIdGenerator::new(),
+        filter: RecFilter { cfg: fcfg, last: None, count: 0, updates: 0 },
+        mean_delay: None,
+        peer_delay_state: PeerDelayState::Empty,
+    }
+}
+
+/// the actions `end_bmca` would hand to the host
+pub(crate) fn take_pending(p: &mut BPort<'_>) -> Drained {
+    let it = core::mem::replace(&mut p.lifecycle.pending_action, actions![]);
+    drain(it).0
+}
+
+pub(crate) fn local_best(p: &BPort<'_>) -> Option<crate::bmc::bmca::BestAnnounceMessage> {
+    p.lifecycle.local_best
+}
+
+pub(crate) struct PortView {
+    pub code: u8,
+    pub remote: Option<PortIdentity>,
+    pub slots_empty: bool,
+    pub multiport: Option<Duration>,
+    pub clock_cmds: u32,
+    pub clock_props: u32,
+    pub filter_count: u32,
+}
+
+pub(crate) fn view<L>(p: &Port<'_, L, AcceptTwo, StubRng, RecClock, RecFilter, DepthCell>) -> PortView {
+    let (remote, slots_empty) = match &p.port_state {
+        PortState::Slave(s) => (Some(s.remote_master), s.sync_state == SyncState::Empty && s.delay_state == DelayState::Empty && s.last_raw_sync_offset.is_none()),
+        _ => (None, true),
+    };
+    PortView { code: state_code(&p.port_state), remote, slots_empty, multiport: p.multiport_disable,
+               clock_cmds: p.clock.commands(), clock_props: p.clock.n_props, filter_count: p.filter.count }
+}
+
+pub(crate) fn set_multiport<L>(p: &mut Port<'_, L, AcceptTwo, StubRng, RecClock, RecFilter, DepthCell>, v: Option<Duration>) {
+    p.multiport_disable = v;
 }
